@@ -89,6 +89,9 @@ def tlc(module, cfg_text, files=None, args=(), workers=8, heap="8g", timeout=360
     art = os.path.join(CACHE, "art", "%s-%s" % (tag, key))
     if cache and os.path.exists(os.path.join(art, "stats.json")):
         return art
+    if not cache:
+        # one-shot artefacts (trace validations) may run concurrently with identical inputs
+        art += "-%d-%d" % (os.getpid(), random.getrandbits(40))
     run = scratch(tag)
     try:
         for f in glob.glob(os.path.join(SPEC, "*.tla")):
